@@ -115,3 +115,16 @@ claim("C06", "runtime monitor on an exact virtual clock: interruption instants, 
 claim("C07", "runtime monitor: case analysis over the logged order of started(), child end, caller cancellation, start() return/raise and group exit, plus C02's leaf accounting for errors raised while unwinding",
       "Held on every executed schedule: exhaustive start() sweep (k checkpoints then started/raise/return/block x afterwards x cleanup variant x caller/group cancel at every cycle x return_handle) plus seeded random programs with nested start() chains.",
       _TREE_NOTE, "DESIGN.md 5/C07")
+
+claim("C14", "runtime monitor with real threads: thread-safe event monitor (global sequence numbers) over gated thread functions, online bound on concurrently running non-abandoned functions, offline identity/ordering oracle; sys.monitoring preemption amplification; asyncio debug mode",
+      "Held on every executed call set: seeded call sets (1-12 calls vs limiter 1-4; return/raise/from_thread callbacks/check_cancelled probes; abandon_on_cancel on/off; nested scopes; cancels before start, while running, after the gate) with gate permutations and injected delays on asyncio(debug) and uvloop. Real-time: watchdog expiry is inconclusive.",
+      "OS thread scheduling plus injected pauses (only pauses the OS could add); wall-clock watchdogs are inconclusive, never violations, unless all thread functions are known to have ended",
+      "DESIGN.md 5/C14")
+claim("C15", "runtime monitor with real threads: exactly-once / routing / join oracle over a thread-safe event log of caller threads, portal tasks and a conductor thread; bounded-progress rule for future cancellation with a loop heartbeat; preemption amplification; known finding F14 classified by mechanism",
+      "Held (apart from the listed known finding F14) on every executed case: 1-6 caller threads x 1-8 calls (sync, coroutine, gated tasks, start_task), future cancellation, explicit stop mid-way, normal / early / exceptional exit on asyncio and uvloop.",
+      "as C14; a wait that times out after the portal context exited is a violation (orphaned call), before that it is inconclusive",
+      "DESIGN.md 5/C15")
+claim("C17", "fault enumeration by runtime monitoring: two real TLSStream endpoints over a harness-owned in-memory transport on the virtual-time loop; every ciphertext byte offset of the base session is cut in turn; position-dependent payload oracle; Deadlock detection for the pump loop",
+      "Held on every executed session: cut offsets enumerated over the whole ciphertext of both directions (every offset in thorough, every 2nd in quick) x TLS 1.2/1.3 x standard_compatible on/off, chunk policies (1-byte, random, coalescing), seeded larger sessions (0 B .. 40 KB messages, both directions busy) with random cuts.",
+      "OpenSSL via ssl, trustme certificates; the Wire delivers in order and a cut drops everything after the offset",
+      "DESIGN.md 5/C17")
